@@ -725,3 +725,5 @@ J(name="c17.iterStepPolygonCompact", props=["C17", "C15"], harness="c17b.c", ent
   loops=[dict(fn="iterStepPolygonCompact", loop=0, locals=["cell", "iter"], assigns="cell, *iter, h3v_live", inv=WALK_INV),
          dict(fn="nextCell", loop=0, locals=["res", "cell"], assigns="res, cell",
               inv="0 <= res && res <= 15 && res == S_RES(cell) && res <= __CPROVER_loop_entry(res)", dec="res")])
+
+J(name="c19.pentagons.enum", props=["C19"], harness="c19.c", entry="h_pentagon_faces_enum", unwind=20, timeout=1800)
